@@ -202,14 +202,14 @@ pp_crypto_hash_gost3411_sum_256 (puint32	a[8],
 				 const puint32	b[8])
 {
 	puint		i;
-	puint32		old;
+	puint64		sum;
 	pboolean	carry;
 
 	carry = FALSE;
 	for (i = 0; i < 8; ++i) {
-		old = a[i];
-		a[i] = a[i] + b[i] + (carry ? 1 : 0);
-		carry = (a[i] < old || a[i] < b[i]) ? TRUE : FALSE;
+		sum = (puint64) a[i] + (puint64) b[i] + (carry ? 1 : 0);
+		a[i] = (puint32) sum;
+		carry = ((sum >> 32) != 0) ? TRUE : FALSE;
 	}
 }
 
